@@ -184,7 +184,7 @@ pub fn dump(texts: &[String], out: &str) -> i32 {
 
 /// (b) fresh processes must produce identical records; returns the number of texts compared
 pub fn cross_process(texts: &[String], procs: usize) -> Result<usize, String> {
-    let scratch = std::env::var("FFV_SCRATCH").unwrap_or_else(|_| format!("{VERIF_DIR}/harness/target/scratch"));
+    let scratch = std::env::var("FFV_SCRATCH").unwrap_or_else(|_| format!("{}/harness/target/scratch", verif_dir()));
     let _ = std::fs::create_dir_all(&scratch);
     let exe = std::env::current_exe().map_err(|e| e.to_string())?;
     let input = format!("{scratch}/c15-in-{}.json", std::process::id());
@@ -298,7 +298,7 @@ fn history_strategy() -> BoxedStrategy<Vec<Step>> {
 }
 
 pub fn run(ctx: &Ctx) -> Report {
-    let cases = ctx.tier.pick(3_000u32, 60_000u32);
+    let cases = ctx.tier.pick(24_000u32, 240_000u32);
     let mut total = run_shards(16, |shard| {
         let mut st = Stats::new();
         let strat = (resource_rich(), resource_rich());
